@@ -7,6 +7,7 @@ import (
 	"io"
 	"os"
 	"path/filepath"
+	"runtime"
 	"sync"
 
 	"gitlab.com/gomidi/midi/v2/smf"
@@ -74,6 +75,19 @@ var c01Arena msgArena
 
 func randomMsg(r *mon.Rand, prev []byte, allowBig bool) []byte {
 	return c01Arena.put(randomMsg0(r, prev, allowBig))
+}
+
+// yieldWriter is a slow in-memory destination: Write yields to other goroutines before copying and
+// between the two halves of what it copies.
+type yieldWriter struct{ b []byte }
+
+func (w *yieldWriter) Write(p []byte) (int, error) {
+	runtime.Gosched()
+	h := len(p) / 2
+	w.b = append(w.b, p[:h]...)
+	runtime.Gosched()
+	w.b = append(w.b, p[h:]...)
+	return len(p), nil
 }
 
 func randomMsg0(r *mon.Rand, prev []byte, allowBig bool) []byte {
@@ -585,12 +599,14 @@ func runC01(c *mon.Ctx) {
 				}()
 				for k := g; k < len(jobs); k += 8 {
 					j := jobs[k]
-					var buf bytes.Buffer
-					if _, err := j.a.s.WriteTo(&buf); err != nil {
+					// a destination that takes its time (as a pipe or a socket does): it yields the processor
+					// before and in the middle of taking over the bytes it is handed
+					buf := &yieldWriter{}
+					if _, err := j.a.s.WriteTo(buf); err != nil {
 						j.err = err
 						continue
 					}
-					j.out = buf.Bytes()
+					j.out = buf.b
 					s2, err := smf.ReadFrom(bytes.NewReader(j.out))
 					if err != nil {
 						j.err = err
